@@ -493,7 +493,7 @@ def env_case_st():
         # long runs: a few hundred calls, most of them steps (history getters grow long, step indices pass 255)
         sparse = st.one_of(st.just(("step",)), st.just(("step",)), st.just(("step",)), op)
         long_run = st.tuples(seed_orders, st.lists(sparse, min_size=120, max_size=300)).map(lambda t: t[0] + t[1])
-        return st.one_of(*([short] * 19 + [long_run]))
+        return st.integers(0, 19).flatmap(lambda k: long_run if k == 0 else short)
 
     return st.integers(1, 10).flatmap(
         lambda tick: st.fixed_dictionaries({"seed": st.one_of(st.integers(0, 2**64 - 1), st.integers(0, 5)), "tick": st.just(tick), "t0": st.one_of(st.integers(0, 1000), st.integers(0, 1000), st.integers(0, 2**62)), "step_size": st.sampled_from([50, 100, 1000, 10**6, 2**40]), "trading": st.sampled_from([True, True, True, False]), "ops": ops_for(tick)})
